@@ -100,6 +100,26 @@ Theorem C09_every_statement : forall (q : query) (c : ctx) (p : pz),
 Proof. exact pagination_is_reference. Qed.
 Print Assumptions C09_every_statement.
 
+(* EVERY set operation of the model - any operands, ORDER BY items, limit / offset terms, context and parameterizer state: the text is the operands,
+   the ORDER BY of the whole operation, then the reference clause of the rendering dialect applied to what the limit and offset terms render to (the
+   two rendered in the order of their slots), all inside the parentheses and before the alias of an embedding position *)
+Theorem C09_every_set_operation : forall (c : ctx) (p : pz) base ops obs lim off alias,
+  render c p (TSetOp base ops obs lim off alias) =
+    let c1 := setop_ctx c in
+    let set_ctx := set_subquery (query_wrap_setops base && negb (dial_eqb (dialect c1) MYSQL)) c1 in
+    do (sb, p1) <- render_query (if query_has_tail base then set_subquery true set_ctx else set_ctx) p base;
+    do (so, p2) <- render_sops set_ctx (query_selects_len base) p1 ops;
+    do (sob, p3) <- render_obys c1 (query_select_aliases base) false p2 obs;
+    do (pag, p5) <- (if offset_slot_first (setop_style_cls (dialect c1)) then
+                       do (oo, p4) <- render_o c1 p3 off; do (ol, p5) <- render_o c1 p4 lim;
+                       Ok (ref_pagination (setop_style_cls (dialect c1)) ol oo (nonempty_strs sob), p5)
+                     else
+                       do (ol, p4) <- render_o c1 p3 lim; do (oo, p5) <- render_o c1 p4 off;
+                       Ok (ref_pagination (setop_style_cls (dialect c1)) ol oo (nonempty_strs sob), p5));
+    Ok (alias_if (with_alias c) c1 (paren_if (subquery c) (sb ++ so ++ setop_orderby_text sob ++ pag)) alias, p5).
+Proof. exact setop_pagination_is_reference. Qed.
+Print Assumptions C09_every_set_operation.
+
 (* the recogniser reads the reference printer's clause back (sampled by computation; digits are arbitrary above) *)
 Example C09_recogniser_reads_printer :
   forallb (fun cls => forallb (fun lo => forallb (fun ob : bool =>
